@@ -34,9 +34,57 @@ import (
 )
 
 // ---- capturing logger ----
-type capLogger struct{ recs [][]byte }
+// recs: every record rendered at the moment it is handed over (compared with the model).  raw: the log.Log values
+// themselves, RETAINED as given (Format and Messages, nothing copied) - a custom logger is free to format later;
+// Late renders them after the session.
+type capLogger struct {
+	recs [][]byte
+	raw  []log.Log
+}
+
+func render(l log.Log) []byte {
+	d := byte('<')
+	if l.Direction == log.DirClientToServer {
+		d = '>'
+	}
+	return append([]byte{d}, []byte(fmt.Sprintf(l.Format, l.Messages...))...)
+}
+
+// Late renders the retained records now.
+func (c *capLogger) Late() [][]byte {
+	out := make([][]byte, len(c.raw))
+	for i, l := range c.raw {
+		out[i] = render(l)
+	}
+	return out
+}
+
+// batchLogger retains records and renders them in batches of n (a buffering custom logger); the rest at Flush.
+type batchLogger struct {
+	n    int
+	pend []log.Log
+	out  [][]byte
+}
+
+func (b *batchLogger) add(l log.Log) {
+	b.pend = append(b.pend, l)
+	if len(b.pend) >= b.n {
+		b.Flush()
+	}
+}
+func (b *batchLogger) Flush() {
+	for _, l := range b.pend {
+		b.out = append(b.out, render(l))
+	}
+	b.pend = nil
+}
+func (b *batchLogger) Debugf(l log.Log) { b.add(l) }
+func (b *batchLogger) Infof(l log.Log)  { b.add(l) }
+func (b *batchLogger) Warnf(l log.Log)  { b.add(l) }
+func (b *batchLogger) Errorf(l log.Log) { b.add(l) }
 
 func (c *capLogger) add(l log.Log) {
+	c.raw = append(c.raw, l)
 	d := byte('<')
 	if l.Direction == log.DirClientToServer {
 		d = '>'
@@ -455,6 +503,10 @@ func runCase(r *hx.Run, c hx.Case) {
 			for _, rec := range cap.recs {
 				scan(r, c.ID, "capture", rec, nd)
 			}
+			// a custom logger that keeps the log.Log values and formats them after the session
+			for _, rec := range cap.Late() {
+				scan(r, c.ID, "retaining-logger", rec, nd)
+			}
 		} else if len(authRecs) > 0 && len(authLines) > 0 && string(authRecs[0]) != ">"+authLines[0] {
 			r.Fail(c.ID, "opt-in-not-logged", fmt.Sprintf("with SetLogAuthData the first record is %q, the AUTH line %q", authRecs[0], authLines[0]))
 		}
@@ -494,7 +546,18 @@ func runCase(r *hx.Run, c hx.Case) {
 		if sc.lad {
 			return
 		}
-		// 2. the stock loggers: formatted output scanned
+		// 2. custom loggers that format in batches of 3 / 4 records
+		for _, n := range []int{3, 4} {
+			bl := &batchLogger{n: n}
+			if _, lb, _, _, err := runSMTP(&sc, bl); err == nil {
+				bl.Flush()
+				ndb := needles(&sc, lb)
+				for _, rec := range bl.out {
+					scan(r, c.ID, "batching-logger", rec, ndb)
+				}
+			}
+		}
+		// 3. the stock loggers: formatted output scanned
 		var sb, jb bytes.Buffer
 		if _, l2, _, _, err := runSMTP(&sc, log.New(&sb, log.LevelDebug)); err == nil {
 			scan(r, c.ID, "stdlog", sb.Bytes(), needles(&sc, l2))
